@@ -92,7 +92,9 @@ def expression(draw, depth=2, ids=None):
     return op.join(parts)
 
 
-INVALID_EXPRESSIONS = ["MIT AND", "OR MIT", "MIT AND OR ISC", "(MIT", "MIT)", "()", "MIT WITH", "AND", "MIT OR (", "MIT ISC"]
+# clear-cut syntax errors only ("MIT ISC" is accepted by the expression library as one symbol;
+# "()" makes the third-party parser raise IndexError, which is C16's subject)
+INVALID_EXPRESSIONS = ["MIT AND", "OR MIT", "MIT AND OR ISC", "(MIT", "MIT)", "MIT WITH", "AND", "MIT OR (", "MIT,ISC", "MIT WITH WITH x"]
 
 # ---- holders ---------------------------------------------------------------
 _FIRST = ["Jane", "John", "Zoë", "Łukasz", "Ng", "María-José", "O'Brien", "李", "Müller", "J. R. R.", "Анна", "Sébastien", "Nguyễn Văn", "Jean  Luc"]
